@@ -21,6 +21,12 @@ def fault_name(d, default):
     return d.get('fault', default).split(':')[0].split('@')[0]
 
 
+def nothing_written(d):
+    """qr: the peer ends the stream (fin / reset / close / silence) before it has written a single byte"""
+    f = d.get('fault', 'fin')
+    return d.get('chunks', '-') == '-' or (f.split(':')[0].split('@')[0] in ('reset', 'close', 'timeout') and f.endswith('@0'))
+
+
 def tokens(out):
     w = out.split()
     return w[0], [tuple(x.split('=', 1)) if '=' in x else (x, '') for x in w[1:]]
@@ -32,8 +38,8 @@ def wire_len(chunks):
 
 
 def buf_total(b):
-    """payload length of one buffer spec (a.b.c | hN | tT:a.b | yT)"""
-    if b[0] == 'y':
+    """payload length of one buffer spec (a.b.c | hN | tT:a.b | yT); `-` = no buffer at all"""
+    if b[0] in 'y-':
         return 0
     if b[0] == 'h':
         return int(b[1:])
@@ -43,6 +49,8 @@ def buf_total(b):
 
 
 def buf_wire(b):
+    if b == '-':
+        return 0
     n = buf_total(b)
     vl = lambda v: 1 if v < 64 else 2 if v < 16384 else 4 if v < 2 ** 30 else 8
     if b[0] == 'y':
@@ -80,9 +88,12 @@ class P(Property):
             'seeded offsets (inside a buffer, exactly between two buffers, inside the raw poll_send bytes, or while poll_finish drains an abandoned write): peer STOP_SENDING(code), peer close(code), peer silent until the idle timeout, write after finish, local reset(code up to 2^64-1), local close(code). '
             'qr: peer writes 1..5 chunks; recv_id queried on a fresh stream, WHILE a read is pending, after that read was cancelled, after a '
             'deferred stop, after data, at the end; stop_sending issued while idle / while the read future owns the stream (once or twice); '
-            'peer reset(code), close(code), idle timeout, local close; after such a failed read the same stream is polled again 1..3 times, asked for its id, stopped and polled once more (never a panic, connection errors repeat with the same code).  qa: accept/open on a connection lost by peer close(code), local '
-            'close, idle timeout, for poll_accept_recv/bidi and for poll_open_bidi/send of BOTH OpenStreams impls (Connection, opener() handle, its clone).  qd: datagrams sent / received through the adapter\'s handlers (quarter ids over all varint forms, payloads '
-            '0..1100 bytes), too large, datagrams disabled by the peer, and after peer close(code) / local close / idle timeout.  Codes: every H3_*/QPACK_* value 0x100..0x110, 0x200..0x202, 0x33, varint form boundaries, seeded small (0..0x400) and 8/14/30/62-bit values.  Compared: bytes received by the peer '
+            'peer reset(code), close(code), idle timeout, local close; after such a failed read the same stream is polled again 1..3 times, asked for its id, stopped and polled once more (never a panic, connection errors repeat with the same code; '
+            'the peer\'s RESET at a piece boundary / inside a piece / before any data is reported again by EVERY later read, never as end of stream: F23); the peer leaving the stream open (the case ends with a read in flight); a deferred stop going out with a read that completes with the end of the stream or an error; stop codes that are no varints (the call panics, the stream is untouched).  '
+            'qw also: after a write that failed (peer STOP_SENDING(code) at a seeded offset, close, timeout, write after finish) 1..3 more rounds of send_data + poll_ready on the same stream (each accepted, each failing in the same class with the same code: F24), then a finish with a buffer in flight and one with nothing left, side A\'s connection still open; poll_ready on a stream with nothing to write, poll_send with an empty buffer, finish twice / finish, poll_ready and a second reset after a reset, no buffer at all, the stream dropped unfinished (Quinn finishes it) or after a reset.  '
+            'qa: accept/open on a connection lost by peer close(code), local '
+            'close, idle timeout, a stateless reset (ConnectionError::Reset: the peer forgot the connection, its CONNECTION_CLOSE dropped by a muted socket), and - thorough tier - a handshake failing after side A got its 0.5-RTT handle (peer\'s transport-level CONNECTION_CLOSE: ConnectionClosed; local TLS failure: TransportError), for poll_accept_recv/bidi and for poll_open_bidi/send of BOTH OpenStreams impls (Connection, opener() handle, its clone); close with a code that is no varint (panics, nothing closed).  qd: datagrams sent / received through the adapter\'s handlers (quarter ids over all varint forms, payloads '
+            '0..1100 bytes), too large, datagrams disabled by the peer or by side A itself, and after peer close(code) / local close / idle timeout / stateless reset.  Codes: every H3_*/QPACK_* value 0x100..0x110, 0x200..0x202, 0x33, varint form boundaries, seeded small (0..0x400) and 8/14/30/62-bit values.  Compared: bytes received by the peer '
             '(length + FNV-1a) when no fault, prefix validity otherwise; refusal and its class; the set of ids reported and the id the '
             'peer sees; error class and code; end-of-stream condition and code seen by the peer.  Not compared (canonicalised): how many '
             'id queries happened, how Quinn split the writes, how much data arrived before a fault.  non-trivial = qw cases in which the '
@@ -99,7 +110,7 @@ class P(Property):
 
     # ------------------------------------------------------------------ generators
     def gen_qw(self, rng, big, fault_kind=None, want=None):
-        """One qw case.  fault_kind: none|stop|close|timeout|afin|areset|lclose|cfin (None = seeded mix).
+        """One qw case.  fault_kind: none|stop|close|timeout|afin|areset|lclose|cfin|nofin (None = seeded mix).
         want: None | 'ps' (raw bytes after the frames) | 'psfault' (the peer fault hits while poll_send is blocked)
         | 'dblp' | 'psp' (second send_data / poll_send at the first Pending of a buffer).
         A case that cannot realise what was asked for (e.g. too little data to be blocked at the fault) is
@@ -119,6 +130,8 @@ class P(Property):
         cwin = rng.choice(WINS + [1 << 22, 1 << 22])
         swin = 1 << 22
         fk = fault_kind or rng.choice(['none'] * 6 + ['stop', 'close', 'afin', 'areset', 'lclose', 'cfin'])
+        if fk == 'nofin':
+            want = 'drop'       # the stream is dropped unfinished: the peer reads afterwards
         if want == 'drop':
             win = rng.choice([1000, 4096, 65536, 1 << 20])
             cwin = 1 << 22
@@ -146,13 +159,17 @@ class P(Property):
             if eff < 1000:
                 return None
             bufs[rng.randrange(nb)] = split_chunks(rng, 256 * 1024)
-        if want in ('many', 'drop') or rng.random() < 0.1:
+        if nb and (want in ('many', 'drop') or rng.random() < 0.1):
             # a payload of 5..64 small chunks that fit the window: many accepted poll_write calls inside ONE poll_ready
             k = rng.randint(5, 64)
             bufs[rng.randrange(nb)] = [rng.randint(1, 4) for _ in range(k)]
         if want == 'drop':
             bufs = [b for b in bufs if sum(b) <= 300][:3] or [[7, 7]]
             nb = len(bufs)
+        if want == 'empty' or (want in (None, 'drop') and fk in ('none', 'afin', 'nofin') and rng.random() < 0.06):
+            # no buffer at all: the stream is finished (twice: afin) / dropped with nothing written
+            bufs = []
+            nb = 0
         # other kinds of WriteBuf: HEADERS frame, stream type + DATA frame, stream type alone
         specs = []
         for b in bufs:
@@ -172,7 +189,7 @@ class P(Property):
         # buffers that cannot be accepted in one go: poll_ready is certain to return Pending on them
         blocking = [j for j, w in enumerate(wires) if w > eff]
         ps = '-'
-        if want in ('ps', 'psfault') or (want is None and fk == 'none' and rng.random() < 0.2):
+        if want in ('ps', 'psfault') or (want is None and fk == 'none' and rng.random() < 0.2) or (fk == 'nofin' and rng.random() < 0.3):
             cap = 256 * 1024 if big else 64 * 1024
             ps = rng.choice([0, 1, 100, rng.randint(0, max(1, min(budget, cap))), rng.randint(0, max(1, min(budget, cap)))])
             if want == 'psfault':
@@ -228,7 +245,9 @@ class P(Property):
             if not blocking:
                 return None
             fault = 'cfin@%d' % rng.choice(blocking)
-        dbl = rng.choice(['-', '-', str(rng.randrange(nb))])
+        elif fk == 'nofin':
+            fault = 'nofin'
+        dbl = rng.choice(['-', '-', str(rng.randrange(nb))]) if nb else '-'
         dblp = psp = '-'
         if fk == 'none':
             if want == 'dblp' or (want is None and blocking and rng.random() < 0.3):
@@ -245,13 +264,36 @@ class P(Property):
         ids = rng.choice([31, 31, rng.randint(0, 31) | 8])   # bit 3 (after the writes) is reached in every run
         if drop:
             dblp = psp = '-'       # nothing is pending when everything fits the window
-            if fault != 'none':
+            if fk not in ('none', 'nofin', 'areset'):
                 return None
-        return ('qw role=%s kind=%s via=%s skip=%d win=%d cwin=%d swin=%d bufs=%s seed=%d ids=%d dbl=%s dblp=%s psp=%s rd=%d ps=%s drop=%d cf=%s fault=%s'
-                % (role, kind, via, skip, win, cwin, swin, ','.join(bufs), rng.randint(0, 255), ids,
-                   dbl, dblp, psp, rd, ps, drop, cf, fault))
+        # poll_ready while there is nothing to write; more calls once the stream was finished / reset (a reset after a
+        # finish is left out: whether the peer sees the FIN or the reset is a race)
+        extra = ''
+        if rng.random() < (0.5 if want == 'idle' else 0.12):
+            extra += ' pr0=1'
+        if fk in ('none', 'nofin') and rng.random() < (0.5 if want == 'idle' else 0.1):
+            extra += ' pse=1'
+        if fk in ('stop', 'close', 'timeout', 'afin') and (want == 'sa' or rng.random() < 0.3):
+            # after the failed write: K more rounds of send_data + poll_ready (each accepted, each failing the way the
+            # stream failed: F24), then - peer stop - a finish with a buffer in flight and one with nothing left
+            extra += ' sa=%d' % (rng.choice([2, 2, 3]) if want == 'sa' else rng.choice([1, 2, 2, 3]))
+        if (fk in ('none', 'areset') or (fk == 'afin' and not nb)) and (want == 'idle' or rng.random() < 0.15):
+            ops = ['f', 'p'] + (['r%d' % rng.choice([0, code, 2 ** 62, 2 ** 64 - 1])] * 2 if fk == 'areset' else [])
+            extra += ' tail=' + '.'.join(rng.choice(ops) for _ in range(rng.randint(1, 4)))
+        return ('qw role=%s kind=%s via=%s skip=%d win=%d cwin=%d swin=%d bufs=%s seed=%d ids=%d dbl=%s dblp=%s psp=%s rd=%d ps=%s drop=%d cf=%s%s fault=%s'
+                % (role, kind, via, skip, win, cwin, swin, ','.join(bufs) or '-', rng.randint(0, 255), ids,
+                   dbl, dblp, psp, rd, ps, drop, cf, extra, fault))
 
     def gen_qr(self, rng, big, fault_kind=None):
+        """One qr case.  fault_kind: fin|reset|close|timeout|lclose|open|pendend|badstop|resetre (None = seeded mix)."""
+        badstop = fault_kind == 'badstop'
+        if badstop:
+            fault_kind = 'fin'
+        # resetre: the peer resets at a piece boundary or inside a piece, and the stream is read AGAIN 2-3 times
+        # (plus a recv_id query, a stop and one more read): the reset must be reported every time (F23)
+        resetre = fault_kind == 'resetre'
+        if resetre:
+            fault_kind = 'reset'
         role = rng.choice('cs')
         kind = rng.choice(['bi', 'uni', 'bip'])
         skip = rng.choice([0, 0, 1, 3, rng.randint(0, 20)])
@@ -268,29 +310,55 @@ class P(Property):
             left = max(1, left - n)
             chunks.append(n)
         total = sum(chunks)
-        fk = fault_kind or rng.choice(['fin'] * 6 + ['reset', 'reset', 'close', 'close', 'lclose'])
+        fk = fault_kind or rng.choice(['fin'] * 6 + ['reset', 'reset', 'close', 'close', 'lclose', 'open', 'pendend'])
         code = any_code(rng)
         stop = 'none'
-        if fk == 'fin':
+        if fk == 'pendend':
+            # a stop requested while a read is pending, and that read completes with the end of the stream or with an
+            # error (nothing was written before): the deferred stop goes out with a failed / final read
+            sc = rng.choice([c for c in CODES if c < VMAX] + [rng.getrandbits(61)])
+            stop = '%d@%s' % (sc, rng.choice(['pend', 'pend', 'pend2']))
+            fk = rng.choice(['fin', 'reset', 'reset', 'close'])
+            if fk == 'fin':
+                chunks, total, fault = [], 0, 'fin'
+            else:
+                fault = '%s:%d@0' % (fk, code)
+        elif fk == 'open':
+            # the peer leaves the stream open: the case ends with a read in flight
+            fault = 'open'
+            if rng.random() < 0.15:
+                chunks, total = [], 0
+        elif fk == 'fin':
             fault = 'fin'
             sc = rng.choice([c for c in CODES if c < VMAX] + [rng.getrandbits(61)])
             stop = rng.choice(['none', 'none', '%d@idle' % sc, '%d@pend' % sc, '%d@pend' % sc, '%d@pend2' % sc])
+            if badstop or rng.random() < 0.04:
+                # a code that is no varint: the call panics and leaves the stream alone (2^62-1@pend2: only the second call)
+                when = rng.choice(['idle', 'pend', 'pend2', 'pend2'])
+                bad = [2 ** 62, 2 ** 62 + rng.getrandbits(40), 2 ** 63 + 5]
+                stop = '%d@%s' % (rng.choice(bad + ([VMAX] * 3 if when == 'pend2' else [2 ** 64 - 1])), when)
         elif fk == 'timeout':
             fault = 'timeout@%d' % rng.randint(0, total)
         elif fk == 'lclose':
             fault = 'lclose:%d' % code
         else:
-            fault = '%s:%d@%d' % (fk, code, rng.randint(0, total))
+            at = rng.randint(0, total)
+            if resetre:
+                bounds = [sum(chunks[:i]) for i in range(len(chunks) + 1)]
+                inside = [b + 1 + rng.randrange(max(1, c - 1)) for b, c in zip(bounds, chunks) if c > 1]
+                at = rng.choice(bounds if rng.random() < 0.5 or not inside else inside)
+                code = rng.choice([code, rng.choice(list(range(0x100, 0x111)))])
+            fault = '%s:%d@%d' % (fk, code, at)
         ids = rng.choice([63, 63, rng.randint(0, 63) | 32])   # bit 5 (at the end) is reached in every run
         via = rng.choice(['conn', 'opener', 'clone'])
         tail = ''
-        if fk != 'fin':
+        if fk not in ('fin', 'open'):
             # after the failed read: poll again 1..3 times, recv_id, stop_sending, poll once more
-            re = rng.choice([0, 1, 1, 2, 3])
+            re = rng.choice([2, 3]) if resetre else rng.choice([0, 1, 1, 2, 3])
             if re:
                 tail = ' re=%d restop=%s' % (re, rng.choice(['-', str(rng.choice([c for c in CODES if c <= VMAX]))]))
         return ('qr role=%s kind=%s via=%s skip=%d win=%d cwin=%d chunks=%s seed=%d ids=%d stop=%s fault=%s%s'
-                % (role, kind, via, skip, win, cwin, ','.join(map(str, chunks)), rng.randint(0, 255), ids, stop, fault, tail))
+                % (role, kind, via, skip, win, cwin, ','.join(map(str, chunks)) or '-', rng.randint(0, 255), ids, stop, fault, tail))
 
     def cases(self, tier, rng):
         out = []
@@ -308,6 +376,16 @@ class P(Property):
                 out.append(self.gen_qw(rng, big, fk, want))
         for fk in ('fin', 'reset', 'close', 'lclose'):
             for _ in range(3 if q else 40):
+                out.append(self.gen_qr(rng, big, fk))
+        # families added for model coverage: the stream dropped unfinished / after a reset, finished twice with nothing
+        # written, poll_ready on the idle stream and calls after finish / reset; reads that end pending, deferred stops
+        # that go out with the end of the stream or an error, stop codes that are no varints
+        for fk, want, n in (('nofin', None, 4), ('areset', 'drop', 2), ('afin', 'empty', 2), ('none', 'empty', 1),
+                            ('none', 'idle', 4), ('areset', 'idle', 3), ('stop', 'sa', 8), ('close', 'sa', 2), ('afin', 'sa', 1)):
+            for _ in range(n if q else 12 * n):
+                out.append(self.gen_qw(rng, big, fk, want))
+        for fk, n in (('open', 4), ('pendend', 6), ('badstop', 4), ('resetre', 8)):
+            for _ in range(n if q else 12 * n):
                 out.append(self.gen_qr(rng, big, fk))
         for _ in range(nqw):
             out.append(self.gen_qw(rng, big))
@@ -331,6 +409,24 @@ class P(Property):
                         out.append('qa role=%s op=%s via=%s fault=lclose:%d' % (role, op, via, c))
                 if not q or op == 'open_bidi':
                     out.append('qa role=%s op=%s via=%s fault=timeout' % (rng.choice('cs'), op, via))
+        # a connection lost by a stateless reset (quinn::ConnectionError::Reset; A is the connecting side), and close
+        # with a code that is no varint (the call panics, nothing is closed)
+        for op in ('accept_recv', 'accept_bidi', 'open_bidi', 'open_send'):
+            for via in ((rng.choice(['conn', 'opener', 'clone']),) if q else ('conn', 'opener', 'clone')):
+                out.append('qa role=c op=%s via=%s fault=sreset' % (op, via))
+            for c in ((rng.choice([2 ** 62, 2 ** 64 - 1]),) if q else (2 ** 62, 2 ** 62 + rng.getrandbits(40), 2 ** 64 - 1)):
+                out.append('qa role=%s op=%s via=%s fault=lclose:%d' % (rng.choice('cs'), op, rng.choice(['conn', 'opener', 'clone']), c))
+        # a handshake that fails after side A (accepting, 0.5-RTT handle) got its connection: the peer's transport-level
+        # CONNECTION_CLOSE (ConnectionClosed) / a local TLS failure (TransportError); 2 s each
+        if not q:
+            for op in ('accept_recv', 'accept_bidi', 'open_bidi', 'open_send'):
+                for f in ('pclosed', 'terr'):
+                    out.append('qa role=s op=%s via=%s fault=%s' % (op, rng.choice(['conn', 'opener', 'clone']), f))
+        for d in ('send', 'recv'):
+            for _ in range(1 if q else 6):
+                out.append('qd role=c dir=%s sid=%d len=%d seed=%d fault=sreset' % (d, 4 * rng.getrandbits(20), rng.randint(0, 1100), rng.randint(0, 255)))
+        for _ in range(2 if q else 12):
+            out.append('qd role=%s dir=send sid=%d len=%d seed=%d fault=ldisabled' % (rng.choice('cs'), 4 * rng.getrandbits(rng.choice([6, 30, 60])), rng.randint(0, 1100), rng.randint(0, 255)))
         # datagrams through the adapter's handlers
         for i in range(14 if tier == 'quick' else 300):
             role = rng.choice('cs')
@@ -365,7 +461,11 @@ class P(Property):
             if fn == 'lclose':
                 t['pid'] = '~'
         elif fam == 'qr':
-            timing = fault_name(d, 'fin') != 'fin' or d.get('stop', 'none') != 'none'
+            timing = fault_name(d, 'fin') not in ('fin', 'open') or d.get('stop', 'none') != 'none'
+            if '@pend' in d.get('stop', 'none') and nothing_written(d):
+                # the deferred stop goes to Quinn when the pending read completes - here with the end of the stream or
+                # with the error itself: Quinn has nothing left to stop, the peer cannot see the request
+                t['pstop'] = '~'
         if timing and t.get('pfx') == 'ok' and 'recv' in t:
             t['recv'] = '~'
         return t
@@ -386,6 +486,12 @@ class P(Property):
             return False
         for k, v in b.items():
             if v == '*':
+                continue
+            if ',' in v and '*' in v.split(','):
+                # a list with wildcard items (saf=ok/err:terminated:C,*)
+                av, bv = a.get(k, '').split(','), v.split(',')
+                if len(av) != len(bv) or any(y != '*' and x != y for x, y in zip(av, bv)):
+                    return False
                 continue
             if a.get(k) != v:
                 return False
@@ -409,7 +515,7 @@ class P(Property):
         if d.get('skip', '0') != '0':
             emit(dict(d, skip='0'))
         if fam == 'qw':
-            bufs = d.get('bufs', '0').split(',')
+            bufs = [b for b in d.get('bufs', '0').split(',') if b != '-']
             fn = fault_name(d, 'none')
             # dblp / psp need a buffer larger than the window (Pending certain): do not shrink buffers under them
             pinned = d.get('dblp', '-') != '-' or d.get('psp', '-') != '-'
